@@ -1,12 +1,14 @@
 """C02 — row aggregates survive the agent -> aggregator transfer unchanged (DESIGN §6 C02)."""
 HARNESS = "./cmd/verif-c02"
 DRIVER = "drv_c02"
-NCORPUS = 7  # scripted buckets in cmd/verif-c02 corpus()
+NCORPUS = 9  # scripted buckets in cmd/verif-c02 corpus()
 
 
 def run(c):
     c.rule = ("one case = one BUCKET of 1-6 rows with distinct metrics (rows with no / few / many string tops mixed), all rows pushed through ONE real "
-              "Shard.sampleBucket call and serialised only afterwards, then decoded and merged row by row; per row: random key (tag / string-tag layout incl. index 47, timestamp at every edge of the believe window), "
+              "Shard.sampleBucket call (StringTopCountSend 3: FinishStringTop folds) and serialised only afterwards, then the decoded bucket is handed to the REAL "
+              "Aggregator.handleSendSourceBucket (rpc HandlerContext mock seam; aggregator knows 4 string mappings, agent host mapped or not) and the rows are read "
+              "from the real aggregatorBucket; a third of the rows use string-top capacity 3 (MapStringTop resamples / redirects to Tail); per row: random key (tag / string-tag layout incl. index 47, timestamp at every edge of the believe window), "
               "1-6 events (counter / value / histogram / single value with count / unique; tail or one of 5 string-top keys; 6 host "
               "tags; counts 0, total and dyadic multiples) applied through the real data_model API, sent with sf in "
               "{1,2,3,10,3/2,9/4,4,15/2} through the real Shard.sampleBucket (keepF), TL bytes written and read back, merged with "
@@ -18,10 +20,13 @@ def run(c):
         "aggregator side: compared centroid by centroid when a sufficient no-merge bound holds, otherwise by total weight)",
         "ChUnique sketches are far below the thinning limit (skipDegree 0) and are compared as sets of 32-bit hashes; the hash function and the sketch serialisation are inputs/trusted (C04)",
         "the TL byte codec is exercised (WriteTL1Boxed/ReadTL1Boxed) but not modelled (C14); LZ4 framing and RPC are not on the path",
-        "the aggregator handler glue (Skeys -> STags copy, no string mapping known, no built-in metric key rewriting) is replicated in the harness: handleSendSourceBucket needs a full Aggregator + RPC context",
-        "random draws (max-counter-host choice) are inputs; string tops stay below capacity (no resampling)",
+        "the real handleSendSourceBucket is driven offline (Aggregator struct built as MakeAggregator does, recent window opened by the real advanceRecentBuckets); only user metrics (id > 0) are generated, "
+        "so the built-in-metric key rewriting of the handler is not exercised; strings are valid (validateStringTag never drops a row)",
+        "random draws are inputs of the model: the max-counter-host choice, and for string tops at capacity WHICH entries a resample evicted / FinishStringTop folded (observed from the Top map before/after; "
+        "the fold order is not observable, rows that can fold carry one host tag so that the result does not depend on it; the model validates the necessary conditions of each draw)",
+        "mapped string-top keys stay distinct (a string key and the int it maps to would be merged by the aggregator with an unseeded random max-counter host: excluded by hypothesis and by the generator)",
     ]
-    c.prove("SH.Props.C02", extra_files=["SH/Model/Transfer.lean"])
+    c.prove("SH.Props.C02", extra_files=["SH/Model/Transfer.lean", "SH/Lemmas/TransferMap.lean"])
     drv = c.driver(DRIVER)
     binary = c.go_build(HARNESS)
     if binary and drv:
@@ -47,15 +52,22 @@ def run(c):
 META = {
     "level": "proof",
     "technique": "Lean 4 theorems over an executable model of MultiValueToTL / MergeWithTL2 / key transport (generic ordered field) + stage-by-stage differential correspondence with the real agent and aggregator code + exact-rational oracle",
-    "text": ("Kernel-checked: for every row built from any sequence of valid counter/value/histogram/unique events, every sample factor >= 1, every "
-             "string-top layout and every key, the aggregator-side row equals the agent-side row with count, sum, sum of squares and centroid weights "
-             "multiplied by sf, the same min/max, hosts (the sending agent's host substituted for empty), unique set and key. The model is tied to the "
-             "code by replaying each generated row through the real sampleBucket/TL/MergeWithTLMultiItem path and through the compiled Lean model and "
-             "diffing the row after every event, the decoded TL item and the aggregator row."),
-    "note": ("Theorems are about the tree with fixes/C02-compact-sum.diff and fixes/C02-empty-host.diff applied (model variant .fixed); the pinned-tree "
-             "behaviour is kept as variant .repo with `decide` counterexamples. Trusted: Lean kernel, exact arithmetic instead of float64, tdigest and "
-             "ChUnique internals, TL codec, the model<->code correspondence on generated rows. Reading: a value without digest counts as the single centroid (min, count); for a percentile row holding several "
-             "distinct values but no digest (unique events only) the property defines no centroids - the theorem states what the code does "
-             "(implicit centroid at min), the oracle does not judge it (counted as oracle.centroids-unspecified)."),
+    "text": ("Kernel-checked: for every row produced by any sequence of agent operations (counter/value/histogram/single-value/unique events routed by the full "
+             "MapStringTop incl. redirect-to-tail and resample rounds at capacity, FinishStringTop; every admissible random draw and fold order), every sample factor >= 1, "
+             "every key and every aggregator string-mapping table, the row the aggregator holds after handleSendSourceBucket (key transport + Skeys/host/string-top "
+             "mapping glue + MergeWithTLMultiItem) equals the row as sent with count, sum, sum of squares and centroid weights multiplied by sf, the same min/max, hosts "
+             "(the sending agent's host for empty, mapped strings as ints), unique set, string-top keys and key. Centroids: proved that the list on the wire is the "
+             "agent digest's Centroids() with weights*sf and that exactly this list is added to the aggregator digest. The model is tied to the code by replaying each "
+             "generated bucket through the real sampleBucket / TL bytes / real handleSendSourceBucket and through the compiled Lean model, diffing the row after every "
+             "event, the decoded TL item and the row read from the real aggregatorBucket."),
+    "note": ("Model variant .fixed = tree with fixes/C02-compact-sum.diff and fixes/C02-empty-host.diff (both committed in /repo); the pinned-tree behaviour is kept as "
+             "variant .repo with `decide` counterexamples. Trusted, not proved: float64/float32 rounding (exact arithmetic instead), hrissan/tdigest internals (what "
+             "Centroids() returns on the agent and how the aggregator digest compresses the added list), ChUnique internals and serialisation (sets of hashes at "
+             "skipDegree 0), the TL codec, and the model<->code correspondence on generated buckets. Hypotheses of the headline theorem: normalized event hosts, numbers "
+             "inside the aggregator's float32 validators, timestamp inside the believe window (clamps proved separately), mapped string-top keys distinct, the agent host "
+             "tag is what getTagUnionBytes returns. Reading: a value without digest counts as the single centroid (min, count); for a percentile row holding several "
+             "distinct values but no digest (unique events only) the property defines no centroids - the theorem states what the code does (implicit centroid at min), "
+             "the oracle does not judge it (oracle.centroids-unspecified). Not modelled: aggregator-side string-top resampling (capacity 1000 never reached), "
+             "built-in-metric key rewriting in the handler, rows dropped for invalid strings."),
     "design_ref": "DESIGN.md §6 C02",
 }
